@@ -165,6 +165,11 @@ pub fn gen_config(prop: &str, tier: Tier, rng: &mut Rng) -> Config {
             if prop == "C03" {
                 c.kills = rng.chance(1, 5);
             }
+            // accept errors and their back-off are not worker faults: limit and wake-up rule hold
+            if rng.chance(1, 6) {
+                c.accept_faults = true;
+                c.advance = true;
+            }
         }
         "C04" => {
             c.workers = rng.range(1, 4) as usize;
@@ -172,6 +177,15 @@ pub fn gen_config(prop: &str, tier: Tier, rng: &mut Rng) -> Config {
             c.pause = rng.chance(1, 4);
             // a restarted worker changes the order of the rotation list, not the rules
             c.kills = rng.chance(1, 5);
+            // neither do service restarts (failing readiness) and accept-error back-offs
+            if rng.chance(1, 5) {
+                c.scripts = true;
+                c.script_errors = rng.chance(1, 2);
+            }
+            if rng.chance(1, 6) {
+                c.accept_faults = true;
+                c.advance = true;
+            }
             if rng.chance(1, 4) {
                 c.bitset_only = true;
                 c.max_actions = rng.range(20, 200) as usize;
